@@ -30,6 +30,8 @@ def check(run):
     ec.run_family(run, 'C02-main', 'Q_C02ok', 'R_2x2', maxA=2 if quick else 4, opts={'endless': True})
     if quick:
         ec.run_family(run, 'C02-3rec', 'Q_C02mut', 'R_2x2', maxA=4)
+    ec.run_family(run, 'C02-two-digit-bounds', 'Q_C02bigok', 'R_one', maxA=12)
+    ec.run_family(run, 'C02-none-vs-empty', 'Q_C02none', 'R_2x2E', maxA=2 if quick else 3)
     ec.run_family(run, 'C02-join', 'Q_C02joinok', 'R_2x2', recsB='R_2x2', maxA=2 if quick else 2, maxB=2 if quick else 3)
     run.exhaustive = True
 
